@@ -8,7 +8,7 @@ RULE = ('scripts of k plain statements from the verification grammar x random se
         'each also with every opaque region body replaced; non-trivial = distinct script text with k >= 2 or containing a region with ; inside')
 ASSUMPTIONS = ['lexical bridge: grammar text lexes to the token classes the token-level theorems quantify over (sampled by S-LEX; opaque regions are C14)',
                'model of StatementSplitter tied by S-SPLIT (sampled) and S-CSL (exhaustive table of _change_splitlevel)']
-PARTIAL = ['character-level clause (each opaque region is one token) is C14']
+PARTIAL = ['character-level clause: region_in_one_statement / semicolon_in_region_does_not_split are theorems (all nine region kinds); replacing a region body keeps the statement partition under the explicit hypothesis that the tokens before the region agree (vacuous for a leading region; earlier rules such as AT TIME ZONE can read into a following quote)']
 
 REGION_TYPES = None
 
